@@ -53,11 +53,11 @@ def jobs(tier):
     out = []
     langs = ['java', 'kotlin'] if tier == 'quick' else U.LANGS
     units = ['gen_variable', 'gen_assignment', 'gen_new', 'gen_variable_decl', 'generate_expr', 'gen_field_access',
-             'gen_func_call', 'gen_lambda', 'gen_is_expr']
+             'gen_func_call', 'gen_lambda', 'gen_is_expr', 'gen_matching_func', 'gen_class_decl']
     for lang in langs:
         for unit in units:
             nv = 1 if tier == 'quick' else 2
-            extra = dict(nvars=0, with_nested=False) if unit in ('generate_expr', 'gen_lambda') else (
+            extra = dict(nvars=0, with_nested=False) if unit in ('generate_expr', 'gen_lambda', 'gen_matching_func', 'gen_class_decl') else (
                 dict(nvars=0 if tier == 'quick' else 1, with_nested=True,
                      **(dict(sym_draws=3 if tier == 'quick' else 5) if unit == 'gen_func_call' else {}))
                 if unit in ('gen_func_call', 'gen_field_access')
